@@ -72,6 +72,12 @@ var vhC17Tpl = []string{
 	"{% block b %}{% block c %}{{ boomfn(x) }}{% endblock %}{% endblock %}",
 	"{{ x|boom is boomt }}",
 	"{% include 'inc' only %}",
+	// relative names inside loader-served templates in a directory; the loader also has templates under
+	// the names as written ('./part', 'part'): a failure of the resolved template must not be papered
+	// over by rendering one of those
+	"{% include 'dir/page' %}",
+	"{% include 'dir/ext' %}",
+	"{% include 'dir/imp' %}",
 }
 
 // templates whose names cannot be resolved: the render must fail, with empty output
@@ -134,7 +140,10 @@ func vhC17Engine(tick func() bool, debug bool) *Engine {
 	e.RegisterString("wraps-wraps", "<{% include 'wraps-missing-include' %}>")
 	e.RegisterString("wraps-badfilter", "[{{ x|nosuchfilter }}]")
 	e.RegisterLoader(&vhFaultLoader{tick: tick, tpl: map[string]string{
-		"L1": "l1{{ x }}", "L2": "<{% block b %}d{% endblock %}>", "L3": "{% macro m(p) %}({{ p }}){% endmacro %}"}})
+		"L1": "l1{{ x }}", "L2": "<{% block b %}d{% endblock %}>", "L3": "{% macro m(p) %}({{ p }}){% endmacro %}",
+		"dir/page": "[{% include './part' %}]", "dir/part": "P{{ x }}", "./part": "WRONG", "part": "WRONG2",
+		"dir/ext": "{% extends './lay' %}{% block b %}c{% endblock %}", "dir/lay": "<{% block b %}d{% endblock %}>", "./lay": "WRONGLAY", "lay": "WRONGLAY2",
+		"dir/imp": "{% import './lib' as l %}{{ l.m(x) }}", "dir/lib": "{% macro m(p) %}({{ p }}){% endmacro %}", "./lib": "{% macro m(p) %}WRONG{% endmacro %}"}})
 	return e
 }
 
